@@ -63,6 +63,8 @@ def gen_classes(rng, malformed=False):
                 inputs.append(copy.deepcopy(inputs[0]))                                    # duplicate input
         classes[cid] = {'name': name, 'group': group, 'params': params, 'inputs': inputs, 'abstract': rng.random() < 0.05,
                         'kind': 'json', 'run_args': [], 'pull': [], 'in_kinds': {}, 'base': 'Task'}
+        if order and rng.random() < 0.2:
+            classes[cid]['parent'] = rng.choice(order)       # task inheritance: exclusion / registration go by the class itself
         order.append(cid)
     if malformed and rng.random() < 0.5 and len(order) >= 2:
         # a dependency cycle of length 1..n by name (classes are defined, so by-name references are possible in any direction)
@@ -128,7 +130,8 @@ def gen_case(rng, malformed=False, yaml_share=0.25, conflict=False, ctx_kind=Non
             mine.append(rng.choice(names))         # the same class in two files: sometimes a conflict
         data = {'tasks': mine}
         if rng.random() < 0.15 and mine:
-            data['excluded_tasks'] = [rng.choice(mine)]
+            parents = [classes[c]['parent'] for c in mine if classes[c].get('parent') in mine]
+            data['excluded_tasks'] = [rng.choice(parents) if parents and rng.random() < 0.6 else rng.choice(mine)]
         for cn in mine:
             for p in classes[cn]['params']:
                 if 'default' not in p or rng.random() < 0.5:
